@@ -557,6 +557,16 @@ def apply(F, S, extra=None):
                     S.ok("P2", "%s bb%s" % (inst, bid), discharged_by=why)
                     continue
             S.bad("P2", "panicking-callee", "%s->%s" % (f.label, callees.strip_turbofish(name)), "%s calls %s (%s/%s): it can panic or is unclassified, and no rule discharges it" % (f.label, name, cls, fam), loc(t["span"]))
+    # P8: Debug is the builtin derive (field-by-field, cannot recurse into itself).  The fmt machinery is otherwise opaque here:
+    # `write!(f, "{:?}", self)` inside a hand-written Debug is an unbounded recursion the call graph does not show
+    for imp in F.impls:
+        if imp.get("of_trait") and (imp.get("trait") or "").endswith("fmt::Debug"):
+            st_ = (imp.get("self_ty") or {}).get("s", "?")
+            dv_ = imp.get("derive") or {}
+            if dv_.get("kind") == "Derive" and dv_.get("macro_krate") in ("core", "std"):
+                S.ok("P8", "Debug for %s" % st_)
+            else:
+                S.bad("P8", "debug-handwritten", st_, "Debug for %s is not #[derive(Debug)]: what it does inside the fmt machinery (recursion through `{:?}`, panics) is not analysed" % st_, loc(imp["span"]))
     # P7: stack frames.  A by-value local array of a size fixed in the source lives in the frame of every call; a few kilobytes are
     # plain data, megabytes abort the process (stack overflow is not an unwinding panic, and certainly not a normal return)
     def arr_elems(ty_):
@@ -664,6 +674,7 @@ def run(tier, repo=None, tag="repo"):
     rep.rule("P3", "every loop is driven by Iterator::next of a Range / slice iterator (terminates)", 0)
     rep.rule("P4", "no recursion", 1)
     rep.rule("P6", "every basic block of every hand-written non-constructor function and closure is executed by some evaluation", 140)
+    rep.rule("P8", "Debug of every crate type is the builtin derive", 25)
     rep.rule("P7", "no hand-written function keeps an array of more than 4096 elements in its stack frame", 150)
     rep.rule("P5", "no format string takes a width / precision from a run-time value (core::fmt panics above u16::MAX)", 20)
     configs = ["default", "serde"] + (["release"] if tier == "thorough" else [])
